@@ -197,7 +197,10 @@ func buildReverseDFA(
 	case UseDFA:
 		// Skip for non-greedy patterns: forward DFA always finds leftmost-longest,
 		// which is incompatible with non-greedy semantics.
-		if result.dfa != nil && !hasNonGreedyQuantifier(re) {
+		// Skip for patterns with assertions as well: the reversed automaton
+		// follows them as plain epsilons, so the reverse scan would pick a start
+		// they rule out (^([a-b]+)|a on "a`ba": [2 4] instead of [3 4]).
+		if result.dfa != nil && !hasNonGreedyQuantifier(re) && !hasAnchorAssertions(re) {
 			reverseNFA := nfa.ReverseAnchored(nfaEngine)
 			revDFA, err := lazy.CompileWithConfig(reverseNFA, revDFAConfig)
 			if err == nil {
@@ -208,10 +211,14 @@ func buildReverseDFA(
 		fwdDFA, err := lazy.CompileWithPrefilter(nfaEngine, dfaConfig, pf)
 		if err == nil {
 			result.dfa = fwdDFA
-			reverseNFA := nfa.ReverseAnchored(nfaEngine)
-			revDFA, revErr := lazy.CompileWithConfig(reverseNFA, revDFAConfig)
-			if revErr == nil {
-				result.reverseDFA = revDFA
+			// Same restrictions as for UseDFA: the bidirectional search is only
+			// exact for greedy patterns without assertions.
+			if !hasNonGreedyQuantifier(re) && !hasAnchorAssertions(re) {
+				reverseNFA := nfa.ReverseAnchored(nfaEngine)
+				revDFA, revErr := lazy.CompileWithConfig(reverseNFA, revDFAConfig)
+				if revErr == nil {
+					result.reverseDFA = revDFA
+				}
 			}
 		}
 	}
